@@ -7,9 +7,9 @@ VARIABLE l
 Ev == TraceLog[l]
 Ok == CASE Ev.e = "Reset" -> TRUE [] Ev.e = "Skip" -> TRUE
         [] Ev.e = "Node" -> NodeOk(Ev) [] Ev.e = "Between" -> BetweenOk(Ev) [] Ev.e = "Range" -> RangeOk(Ev)
-        [] Ev.e = "Same" -> SameOk(Ev) [] Ev.e = "EndPoint" -> EndPointOk(Ev) [] Ev.e = "Scan" -> ScanOk(Ev)
+        [] Ev.e = "Same" -> SameOk(Ev) [] Ev.e = "EndPoint" -> EndPointOk(Ev) [] Ev.e = "Scan" -> ScanOk(Ev) [] Ev.e = "Mono" -> MonoOk(Ev)
         [] OTHER -> FALSE
-TInit == l = 1 /\ model = [family |-> 1, nodes |-> 3, regions |-> 1, scaling |-> "none", arrays |-> FALSE, hyst |-> "none"]
+TInit == l = 1 /\ model = [family |-> 1, nodes |-> 3, regions |-> 1, scaling |-> "none", arrays |-> FALSE, hyst |-> "none", vertical |-> FALSE]
 TStep == l <= Len(TraceLog) /\ Ok /\ l' = l + 1 /\ UNCHANGED model
 TDiag == l <= Len(TraceLog) /\ ~Ok /\ PrintT(<<"DIAG", l, Ev>>) /\ FALSE /\ UNCHANGED <<model, l>>
 TraceSpec == TInit /\ [][TStep \/ TDiag]_<<model, l>>
